@@ -606,9 +606,9 @@ theorem decode_value_bound (neg : Bool) (sl : Slots)
       `|y − x| ≤ B + 4·2^-53·(|x| + B)`,   `B = ½·10^-P/sc + 2^-53`,  `P = clampPrec t p`, `sc = 1, 60, 3600`
 
     (`rtBound`): half a unit of the last printed digit, the one binary rounding of the scaling in `Encode`, and the
-    three roundings of `Decode`.  Partial with respect to DESIGN §5 in two ways: AZIMUTH (where `Encode` first reduces
-    the angle with `AngNormalize`) is not covered, and the degrees are limited to `2^40` (beyond `2^53` the statement is
-    false for the code as it is: finding F33, digit-by-digit accumulation). -/
+    three roundings of `Decode`.  AZIMUTH: `roundtrip_bound_azimuth` (all `x`, with respect to the reduced angle).  The
+    degrees are limited to `2^40` (beyond `2^53` the statement is false for the code as it is: finding F33, digit-by-digit
+    accumulation of the integer part). -/
 theorem roundtrip_bound (s : Bool) (m : ℕ) (e : ℤ) (hx : F64.IsRep (F64.fin s m e)) (hb : |(F64.fin s m e).val| < 2 ^ 40)
     (t p : ℕ) (ht : t ≤ 2) (ind : Flag) (hind : ind = Flag.none ∨ ind = Flag.lat ∨ ind = Flag.lon) (sep : ℕ)
     (hsep : sep = 0 ∨ sep = 58) :
@@ -617,6 +617,28 @@ theorem roundtrip_bound (s : Bool) (m : ℕ) (e : ℤ) (hx : F64.IsRep (F64.fin 
         ((1 / 2) / ((scaleOf t : ℚ) * 10 ^ clampPrec t p) + (2:ℚ) ^ (-(53:ℤ))) +
           4 * (2:ℚ) ^ (-(53:ℤ)) * (|(F64.fin s m e).val| + ((1 / 2) / ((scaleOf t : ℚ) * 10 ^ clampPrec t p) + (2:ℚ) ^ (-(53:ℤ)))) :=
   roundtrip_all s m e hx hb t p ht ind hind sep hsep
+
+/-- **`roundtrip_bound_azimuth`**: with the AZIMUTH flag `Encode` prints the reduced angle
+    `x′ = aziReduce x` — `a = AngNormalize x` (exact, `≡ x mod 360`, `|a| ≤ 180`: C16 `angNormalize_spec`), then `a + 360`
+    (one binary64 rounding) if `a < 0`, else `0 + a = a`; `x′` is a binary64 value in `[0, 512]` (in fact `[0, 360]`) —
+    and `Decode (Encode x … AZIMUTH)` succeeds with flag NONE and a value within the same bound `rtBound` of `x′`,
+    for EVERY binary64 `x`. -/
+theorem roundtrip_bound_azimuth (s : Bool) (m : ℕ) (e : ℤ) (hx : F64.IsRep (F64.fin s m e)) (t p : ℕ) (ht : t ≤ 2) (sep : ℕ)
+    (hsep : sep = 0 ∨ sep = 58) :
+    (F64.IsRep (aziReduce (F64.fin s m e)) ∧ 0 ≤ (aziReduce (F64.fin s m e)).val ∧ (aziReduce (F64.fin s m e)).val ≤ 512 ∧
+      ((MathF.angNormalize (F64.fin s m e)).val < 0 →
+        RN ((MathF.angNormalize (F64.fin s m e)).val + 360) (aziReduce (F64.fin s m e)).val) ∧
+      (0 ≤ (MathF.angNormalize (F64.fin s m e)).val →
+        (aziReduce (F64.fin s m e)).val = (MathF.angNormalize (F64.fin s m e)).val)) ∧
+    ∃ y : F64, decode (encode (F64.fin s m e) t p Flag.azi sep) = .ok (y, Flag.none) ∧ y.isFinite = true ∧
+      |(y.val - (aziReduce (F64.fin s m e)).val)| ≤
+        ((1 / 2) / ((scaleOf t : ℚ) * 10 ^ clampPrec t p) + (2:ℚ) ^ (-(53:ℤ))) +
+          4 * (2:ℚ) ^ (-(53:ℤ)) * ((aziReduce (F64.fin s m e)).val + ((1 / 2) / ((scaleOf t : ℚ) * 10 ^ clampPrec t p) + (2:ℚ) ^ (-(53:ℤ)))) :=
+  ⟨aziReduce_spec s m e hx, roundtrip_azimuth s m e hx t p ht sep hsep⟩
+
+/-- the head of `Encode` for AZIMUTH is the head for NONE on the reduced angle -/
+theorem encode_azimuth_head (x : F64) (t p : ℕ) : encodeHead x t p Flag.azi = encodeHead (aziReduce x) t p Flag.none :=
+  encodeHead_azi x t p
 
 -- non-vacuity: 10.5 is a binary64 value below 2^40
 example : F64.IsRep (F64.fin false 21 (-1)) ∧ |(F64.fin false 21 (-1)).val| < 2 ^ 40 := by
